@@ -22,6 +22,12 @@ func main() {
 		props.C08(c)
 	case "C06":
 		props.C06(c)
+	case "C09":
+		props.C09(c)
+	case "C13":
+		props.C13(c)
+	case "C10":
+		props.C10(c)
 	default:
 		fmt.Fprintln(os.Stderr, "worker: unknown property", c.Prop)
 		os.Exit(2)
